@@ -171,6 +171,43 @@ def total_parsing_rules(ctx):
         ctx.control("parse-expect", any("control_parse_expect" in h for h in hits), "fixtures/positive control_parse_expect")
 
 
+def parser_state_rules(ctx):
+    """shared by C06 and C07: LineParser::end_testcase leaves no per-test-case state behind. On every path that returns Ok either the
+    state is flushed (after the push) or - for a block without a command - the parsed exit code is reset; otherwise the `[n]` of a
+    command-less block becomes the expected exit code of the next test case"""
+    prog = ctx.prog
+    e = prog.fn("LineParser::end_testcase")
+    f_exit = prog.field_by_type("LineParser", "Option<i32>", "exit_code")
+    flushes = [bb for bb, t in e.calls() if (callee_name(t) or "").endswith("LineParser::flush")]
+    resets = []
+    o = Origins(e)
+    for bi, blk in enumerate(e.blocks):
+        if blk["cleanup"]:
+            continue
+        for st in blk["stmts"]:
+            if st["k"] == "assign" and [p_.get("n") for p_ in st["lhs"]["p"] if isinstance(p_, dict)][-1:] == [f_exit]:
+                n = peel(o.rvalue(st["rv"]))
+                if n.kind == "agg" and str(n.a[0]).endswith("None"):
+                    resets.append(bi)
+    from ..cfgq import result_variant_blocks
+    oks = [b for b, _, _ in result_variant_blocks(e, "Ok")]
+    leaky = [b for b in oks if b in e.reachable(0, removed_blocks=flushes + resets)]
+    ctx.check(bool(oks) and not leaky, "end-testcase-clears-exit-code", e.where(),
+              "every Ok path of end_testcase flushes the parser state or resets the parsed exit code (%d flush, %d reset site(s))" % (len(flushes), len(resets)),
+              "end_testcase can return Ok without flush() and without resetting `%s`: the exit code line of a block without a command is carried over "
+              "into the next test case (a following `$ false` without `[n]` is reported as succeeded)" % f_exit)
+    # flush itself clears the exit code
+    fl = prog.fn("LineParser::flush")
+    ofl = Origins(fl)
+    cleared = False
+    for bi, blk in enumerate(fl.blocks):
+        for st in blk["stmts"]:
+            if st["k"] == "assign" and [p_.get("n") for p_ in st["lhs"]["p"] if isinstance(p_, dict)][-1:] == [f_exit]:
+                n = peel(ofl.rvalue(st["rv"]))
+                cleared = cleared or (n.kind == "agg" and str(n.a[0]).endswith("None"))
+    ctx.check(cleared, "flush-clears-exit-code", fl.where(), "flush() resets the exit code")
+
+
 def r7_3(ctx):
     prog = ctx.prog
     f = _parse(prog)
@@ -254,4 +291,5 @@ def run(ctx):
     ctx.run_rule("R7.2", "no rewriting: body = line minus indentation; command = body minus `$ `/`> `; expectation and exit-code lines unmodified [E-FLOW]", r7_2, floor=6)
     ctx.run_rule("R7.3", "Cram defaults pairing: set_testcase_config(default_cram()) after every body line and before the final end_testcase; config reset only in flush after the push [E-STATE pairing]", r7_3, floor=7)
     ctx.run_rule("R7.5", "total parsing: no unwrap/expect on a fallible text conversion (parse, from_str, from_utf8, try_into ..) in parsers / expectation / rules / config (shared with C06 R6.11) [E-SITE]", total_parsing_rules, floor=5)
+    ctx.run_rule("R7.6", "parser state hygiene: every Ok path of LineParser::end_testcase flushes the state or resets the parsed exit code (shared with C06 R6.13) [E-PATH must-pass]", parser_state_rules, floor=2)
     ctx.run_rule("R7.4", "index-unit and len()-k sweeps over the Cram / line parser [E-UNIT]", r7_4, floor=1)
